@@ -49,16 +49,29 @@ CONFIG = dict(
          "soft reset IN, import policy change (rules matching any/peer/next hop with set-next-hop/reject/accept), "
          "reachability reports, end of deferral; 1/8 of the cases feed the run's register/unregister stream in the order "
          "sent to the real run_service_loop; 4% service-loop sequences with injected route events; 3% malformed cases; "
+         "1% + 2 fixed WIRE cases: one real eBGP session on loopback TCP (real run_select -> rx_msg -> insert_route / "
+         "remove_route with the session's own Source, real apply_disconnect -> unregister_peer on close, reconnect); "
+         "inserts with the per-session prefix limit reached (insl), session down with graceful restart for a subset of the "
+         "families (gdown mask), End-of-RIB of a single family (purgef); 5 fixed boundary cases in every run (LOCAL_PREF "
+         "0/1/99/100-present/101/u32 max, ORIGIN absent vs present, AS_PATH absent vs empty, CLUSTER_LIST 0-3, router id 0 "
+         "and u32 max, path id u32 max, VRF table ids 0/1/100000, empty import set, non-RT extended community, every "
+         "watched-count transition of the service loop); "
          "non-trivial = at least one FIB request or a service run; distinct = distinct case line",
     expect_tokens=["(fib (0 0 ", "(fib (0 1 ", "(0 2 ", "(0 3 ", "(10 0 ", "(11 0 ", "(12 1 ", " ())", "(r 1) (u ", "(u 1) (u 1)",
                    "(p 100 ", "(p 101 ", " t f f ", " f t f ", " f f t ", " f t t ", " 200 0 0 t ", " 50 ", " 100 1 ",
                    " 100 2 ", " 0 1 t ", " 0 2 t ", " f 0 ", " f 1 ", "(1 2)) ", "(2 1)) ", "(1 2 3))", "(101", "(feed (", "(feed)", "(order ok)",
-                   "svc-trace", "(emit t f", "bad-case"],
+                   "svc-trace", "(emit t f", "bad-case",
+                   # boundary buckets (wave 7): LOCAL_PREF 0 / 1 / 99 / 101 / u32 max, CLUSTER_LIST 2 and 3, AS_PATH length 3,
+                   # router id 0 and u32 max, path id u32 max, VRF table ids 1 and 100000, the real-session (wire) cases
+                   " f f f 0 ", " f f f 1 ", " f f f 99 ", " f f f 101 ", " f f f 4294967295 ", " t 2 ", " t 3 ", " 100 3 ",
+                   " 0 0 ())", " 4294967295 ())", "(p 0 4294967295 ", "(1 0 ", "(100000 ", " 33686018 ())"],
     trusted_base=["model Rbgp/Fib/Model.lean of daemon/src/table_manager.rs (insert_route, remove_route, unregister_peer, "
                   "drop_stale_families, soft_reset_in, update_nexthop_validity, nht_register, distribute_update) over a reduced "
                   "model of table/src/lib.rs (insert, remove, drop, drop_stale, restale, update_nexthop_validity, ecmp_paths) "
                   "and of kernel/src/lib.rs run_service_loop's watched map",
-                  "harness/daemon/c20.rs: builds Source/attributes/policy objects, reads the request stream through "
+                  "harness/daemon/c20.rs: in the (case ...) histories it builds Source/attributes/policy objects and calls the "
+                  "TableManager entry points itself; in the (wire ...) cases the routes enter and leave through real session tasks "
+                  "(harness/daemon/rig.rs) and the harness only observes; builds Source/attributes/policy objects, reads the request stream through "
                   "rustybgp_kernel::verif (cfg-guarded), snapshots the RIB through the public query API, sorts requests "
                   "between different keys; the import policy with a next-hop action is installed directly in "
                   "TableManager.import_policy (PolicyTable::build_assignment would reject it)",
@@ -75,8 +88,9 @@ CONFIG = dict(
                            "netlink side of the kernel service (apply/withdraw execution, lookup_route results)",
                            "decision steps held constant by the generator: EVPN MAC mobility, ORIGINATOR_ID, confederation roles",
                            "route events of the service loop with a changing kernel answer (lookup_route is real netlink)",
-                           "per-peer prefix limits, add_vrf/delete_vrf and kernel-handle changes in mid-run (not part of the "
-                           "property's histories; probed by hand, see known-findings remarks)"],
+                           "add_vrf/delete_vrf and kernel-handle changes in mid-run (not part of the property's histories; see "
+                           "known-findings remarks); prefix-limit counters above 0 (only the reached limit is modelled); MED / "
+                           "the metric field of the request (not observed)"],
     assumptions=["each VPN prefix maps to its own VRF-local prefix (two RDs carrying the same IP prefix into one VRF would need "
                  "a VRF-level best-path selection that the code does not have; such histories are not generated)",
                  "requests of one history step that concern different FIB cells / different addresses are unordered (hash-map "
@@ -124,9 +138,9 @@ def gen_rule(r, npeers):
 
 def gen_case(r):
     npeers = r.pick([2, 3, 3, 4])
-    peers = ["(%d %d)" % (r.pick([1, 2, 3]), r.pick([0, 0, 0, 1, 2])) for _ in range(npeers)]
+    peers = ["(%d %d)" % (r.pick([1, 2, 3, 1, 2, 3, 0, 4294967295]), r.pick([0, 0, 0, 1, 2])) for _ in range(npeers)]
     nv = r.pick([0, 1, 2, 2, 3])
-    tids = [10, 11, 12]
+    tids = [10, 11, 12] if r.chance(3, 4) else [1, 100000, 11]
     vrfs = []
     for _ in range(nv):
         if r.chance(1, 6) or not tids:
@@ -147,7 +161,8 @@ def gen_case(r):
             ops.append(forced.pop(0))
             continue
         k = r.weighted([("ins", 14), ("rm", 3), ("nh", 4), ("down", 1), ("drop", 1), ("stale", 1), ("purge", 2),
-                        ("llgr", 1), ("lpurge", 1), ("soft", 3), ("pol", 2), ("loc", 1), ("undefer", 1 if pending else 0)])
+                        ("llgr", 1), ("lpurge", 1), ("soft", 3), ("pol", 2), ("loc", 1), ("undefer", 1 if pending else 0),
+                        ("gdown", 1), ("purgef", 1)])
         if k in ("ins", "loc"):
             if k == "loc":
                 src = r.pick([100, 101])
@@ -163,14 +178,21 @@ def gen_case(r):
             if src >= 100:
                 pid = 0
             nh = r.pick(NH6) if (f in (1, 3) and r.chance(3, 4)) else r.pick(NH4)
-            lp = r.pick([100, 100, 100, 100, 200, 50])
-            cl = r.pick([0, 0, 0, 1])
-            asl = r.pick([0, 0, 0, 0, 1, 2])
-            org = r.pick([0, 0, 0, 0, 1, 2])
-            fl = (1 if r.chance(1, 12) else 0) + (2 if r.chance(1, 10) else 0) + (4 if (nh >= 100 and r.chance(1, 3)) else 0)
+            lp = r.pick([100, 100, 100, 100, 100, 200, 50, 0, 1, 99, 101, 4294967295, 4294967294])
+            cl = r.pick([0, 0, 0, 0, 1, 1, 2, 3])
+            asl = r.pick([0, 0, 0, 0, 1, 2, 3])
+            org = r.pick([0, 0, 0, 0, 1, 2, 2])
+            # 1 LLGR_STALE, 2 NO_LLGR, 4 link-local pair, 8 LOCAL_PREF present although default,
+            # 16 ORIGIN absent when INCOMPLETE, 32 AS_PATH present but empty, 64 a non-RT extended community
+            fl = ((1 if r.chance(1, 12) else 0) + (2 if r.chance(1, 10) else 0) + (4 if (nh >= 100 and r.chance(1, 3)) else 0)
+                  + (8 if r.chance(1, 4) else 0) + (16 if r.chance(1, 2) else 0) + (32 if r.chance(1, 3) else 0)
+                  + (64 if r.chance(1, 6) else 0))
+            if pid != 0 and src < 100 and r.chance(1, 10):
+                pid = r.pick([4294967295, 4294967294, 1])
             rts = subset(r, RTS) if (f >= 2 or r.chance(1, 8)) else []
-            ops.append("(ins %d %d %d %d %d %d %d (%s) %d %d %d)" %
-                       (src, f, i, pid, nh, lp, cl, " ".join(map(str, rts)), asl, org, fl))
+            kind = "insl" if (src < 100 and r.chance(1, 9)) else "ins"   # insl: the prefix limit is reached
+            ops.append("(%s %d %d %d %d %d %d %d (%s) %d %d %d)" %
+                       (kind, src, f, i, pid, nh, lp, cl, " ".join(map(str, rts)), asl, org, fl))
             live.append((src, f, i, pid))
             used_nh.append(nh)
         elif k == "rm":
@@ -205,6 +227,14 @@ def gen_case(r):
             forced.append("(purge %d)" % p)
         elif k == "purge":
             ops.append("(purge %d)" % (r.pick(stale) if (stale and r.chance(3, 4)) else r.below(npeers)))
+        elif k == "gdown":
+            # graceful restart negotiated for some families only: the others are dropped
+            p = r.pick([x[0] for x in live if x[0] < 100]) if (live and any(x[0] < 100 for x in live) and r.chance(3, 4)) else r.below(npeers)
+            ops.append("(gdown %d %d)" % (p, r.pick([0, 1, 2, 4, 5, 8, 10, 14, 15])))
+            stale.append(p)
+            forced.append("(purgef %d %d)" % (p, r.below(4)))
+        elif k == "purgef":
+            ops.append("(purgef %d %d)" % ((r.pick(stale) if (stale and r.chance(3, 4)) else r.below(npeers)), r.below(4)))
         elif k == "llgr":
             p = r.pick([x[0] for x in live if x[0] < 100]) if (live and any(x[0] < 100 for x in live) and r.chance(3, 4)) else r.below(npeers)
             ops.append("(llgr %d)" % p)
@@ -237,7 +267,7 @@ def mutate(r, case):
     if k == 1:
         return case.replace("(peers (", "(peers (4294967296 0) (", 1)
     if k == 2:
-        return case.replace(" 100 0 (", " 1001 0 (", 1)
+        return case.replace(" 100 0 (", " 4294967296 0 (", 1)
     if k == 3:
         return case.replace("(ins 0 ", "(ins 9 ", 1)
     if k == 4:
@@ -257,9 +287,46 @@ def netlink_ok():
         return False
 
 
+# boundary values that must be hit in EVERY quick run (independent of the seed)
+BOUNDARY_FIXED = [
+    # LOCAL_PREF present and 0 / 1 / u32 max against absent (= 100) and present 100; ORIGIN absent vs present INCOMPLETE;
+    # AS_PATH absent vs present-empty; CLUSTER_LIST 0..3; router id 0 and u32 max; path id u32 max
+    "(case (peers (0 0) (4294967295 0) (1 0)) (vrfs) (opts (defer) (feed f)) (ops (ins 0 0 1 0 1 0 0 () 0 2 16) (ins 1 0 1 0 2 100 0 () 0 2 8) (ins 2 0 1 0 3 100 0 () 0 2 32) (ins 0 0 1 4294967295 1 1 3 () 0 2 0) (ins 1 0 1 1 2 4294967295 2 () 0 0 0) (ins 2 0 1 1 3 4294967294 1 () 3 0 0) (rm 1 0 1 1) (rm 0 0 1 4294967295) (down 2)))",
+    "(case (peers (1 0) (1 0)) (vrfs) (opts (defer) (feed f)) (ops (ins 0 0 1 0 1 99 0 () 0 0 0) (ins 1 0 1 0 2 100 0 () 0 0 0) (ins 0 0 1 0 1 101 0 () 0 0 0) (ins 0 0 1 0 1 100 0 () 0 0 8) (ins 1 0 1 0 2 100 1 () 0 0 0) (ins 0 0 1 0 1 100 1 () 1 0 0) (ins 1 0 1 0 2 100 1 () 1 1 0) (ins 0 0 1 0 1 100 1 () 1 1 0)))",
+    # prefix limit reached: new prefix refused (nothing stored or registered), further path of a known prefix accepted
+    "(case (peers (1 0) (2 0)) (vrfs) (opts (defer) (feed t)) (ops (insl 0 0 1 0 1 100 0 () 0 0 0) (ins 0 0 1 0 1 100 0 () 0 0 0) (insl 0 0 1 1 2 100 0 () 0 0 0) (insl 0 0 1 0 3 100 0 () 0 0 0) (insl 1 0 1 0 3 100 0 () 0 0 0) (insl 0 0 2 0 1 100 0 () 0 0 0) (down 0)))",
+    # VRF table ids 1 and 100000, table id 0, empty import set, a non-RT extended community next to the route targets
+    "(case (peers (1 0) (2 0)) (vrfs (1 1) (100000 2) (0 1 2 3) (12)) (opts (defer) (feed f)) (ops (ins 0 2 1 0 1 100 0 (1 2) 0 0 64) (ins 1 2 1 0 2 100 0 () 0 0 64) (ins 0 3 1 0 101 100 0 (2) 0 0 68) (rm 0 2 1 0) (down 0) (down 1)))",
+    # graceful restart for some families only; End-of-RIB family by family
+    "(case (peers (1 0) (2 0)) (vrfs (10 1)) (opts (defer) (feed t)) (ops (ins 0 0 1 0 1 100 0 () 0 0 0) (ins 0 1 1 0 101 100 0 () 0 0 0) (ins 0 2 1 0 2 100 0 (1) 0 0 0) (ins 0 3 1 0 102 100 0 (1) 0 0 0) (ins 1 0 1 0 3 100 0 () 0 0 0) (gdown 0 5) (ins 0 0 1 0 1 100 0 () 0 0 0) (purgef 0 1) (purgef 0 0) (purgef 0 2) (gdown 0 0) (gdown 1 15) (purgef 1 0)))",
+]
+
+# one REAL eBGP session on loopback per case (run_select -> rx_msg -> insert_route/remove_route, apply_disconnect -> unregister_peer)
+WIRE_FIXED = [
+    "(wire (rid 33686018) (ops (ann 1 1) (ann 2 1) (ann 1 2) (wd 2) close (ann 1 3) (wd 1) (wd 1) close close))",
+    "(wire (rid 1) (ops (ann 1 1) (ann 1 1) (ann 2 2) (ann 3 2) close (wd 1) (ann 2 1) close))",
+]
+
+
+def gen_wire(r):
+    n = 1 + r.below(8)
+    ops = []
+    for _ in range(n):
+        k = r.weighted([("ann", 6), ("wd", 2), ("close", 1)])
+        if k == "ann":
+            ops.append("(ann %d %d)" % (r.pick([1, 2, 3]), r.pick([1, 2, 3])))
+        elif k == "wd":
+            ops.append("(wd %d)" % r.pick([1, 2, 3]))
+        else:
+            ops.append("close")
+    return "(wire (rid %d) (ops %s))" % (r.pick([1, 2, 4294967294]), " ".join(ops))
+
+
 SVC_FIXED = [
     "(svc (r 1) (r 1) (u 1) (r 2) e (u 2) (u 2) (r 2) (u 1) (u 1) (r 1))",
     "(svc (u 3) (r 3) (r 3) e (r 3) (u 3))",
+    # every count transition: 0->1->2->3, 3->2, 2->1 (must stay watched), 1->0, unregister of an absent address, 0->1 again
+    "(svc (r 1) (r 1) (r 1) (u 1) (u 1) e (r 1) (u 1) (u 1) (u 1) (u 1) (r 1))",
 ]
 
 
@@ -272,7 +339,7 @@ def gen(seed, n, tier):
         # which stay in, will show up as correspondence mismatches (feed-no-netlink)
         import sys
         print("C20: NO NETLINK SOCKET - the service-loop cases (real run_service_loop) are NOT run", file=sys.stderr)
-    out = list(SVC_FIXED) if svc else []
+    out = (list(SVC_FIXED) if svc else []) + list(BOUNDARY_FIXED) + list(WIRE_FIXED)
     for _ in range(n):
         x = r.below(100)
         if x < 4:
@@ -281,6 +348,8 @@ def gen(seed, n, tier):
                 out.append(c)
         elif x < 7:
             out.append(mutate(r, gen_case(r)))
+        elif x < 8:
+            out.append(gen_wire(r))
         else:
             out.append(gen_case(r))
     return out
